@@ -1,40 +1,851 @@
+//! pasfmt-sim: deterministic simulation with fault injection for pasfmt's I/O and fan-out layer.
+//!
+//!   pasfmt-sim check <C16|C17|C18> [--tier quick|thorough] [--procs N]
+//!   pasfmt-sim replay <file>
+//!   pasfmt-sim worker|digest ...      (internal)
+//!
+//! Exit status: 0 = property held on everything explored; 1 = `VIOLATION property=<id>
+//! replay=<path>` printed; 2 = harness error (never a verdict).
+
+#![recursion_limit = "512"]
+
+mod case;
+mod check;
 mod child;
+mod codec;
+mod gen;
+mod minimize;
 mod product;
 mod rng;
 mod scenario;
 mod world;
 
-use scenario::*;
+use case::*;
+use check::*;
+use serde::{Deserialize, Serialize};
+use std::io::{BufRead, Write};
+use std::time::Instant;
 
-fn main() {
-    let args: Vec<String> = std::env::args().collect();
-    match args.get(1).map(|s| s.as_str()) {
-        Some("replay") => {
-            let text = std::fs::read_to_string(&args[2]).expect("read scenario");
-            let sc: Scenario = serde_json::from_str(&text).expect("parse scenario");
-            let res = child::run_scenario(&sc);
-            println!("{}", serde_json::to_string_pretty(&res).unwrap());
+const DEFAULT_SEED: u64 = 20_261_002;
+
+fn verif_dir() -> String {
+    std::env::var("VERIF_DIR").unwrap_or_else(|_| "/verif".to_string())
+}
+fn repo_dir() -> String {
+    std::env::var("PASFMT_REPO").unwrap_or_else(|_| "/repo".to_string())
+}
+
+#[derive(Serialize, Deserialize, Clone, Debug)]
+struct ReplayFile {
+    property: String,
+    oracle: String,
+    detail: String,
+    seed: u64,
+    run: u64,
+    /// size of the case before minimisation (bytes of content, faults, schedule decisions)
+    original_size: (usize, usize, usize),
+    case: Case,
+}
+
+#[derive(Serialize, Deserialize, Debug)]
+#[serde(tag = "type", rename_all = "snake_case")]
+enum WorkerMsg {
+    Violation { replay: ReplayFile },
+    HarnessError { message: String },
+    Done {
+        stats: Stats,
+        case_hashes: Vec<u64>,
+        nontrivial_hashes: Vec<u64>,
+        samples: Vec<String>,
+        sample_cases: Vec<Case>,
+        runs_done: u64,
+        truncated: bool,
+    },
+}
+
+fn case_size(c: &Case) -> (usize, usize, usize) {
+    (
+        c.files.iter().map(|f| f.bytes.len()).sum(),
+        c.faults.len() + c.chunking.len(),
+        c.schedule.as_ref().map(|s| s.len()).unwrap_or(0),
+    )
+}
+
+fn emit(msg: &WorkerMsg) {
+    let out = std::io::stdout();
+    let mut l = out.lock();
+    let _ = writeln!(l, "{}", serde_json::to_string(msg).unwrap());
+    let _ = l.flush();
+}
+
+fn is_nontrivial(c: &Case) -> bool {
+    let has_content = c.files.iter().any(|f| f.exists && !f.bytes.is_empty());
+    has_content
+}
+
+/// A counter shared by the worker processes of one check (a file mapped MAP_SHARED): which
+/// process executes run i does not influence run i, so handing out indices dynamically keeps
+/// every run reproducible while balancing the load.
+struct SharedCounter(*const std::sync::atomic::AtomicU64);
+
+impl SharedCounter {
+    fn open(path: &str) -> Option<SharedCounter> {
+        let c = std::ffi::CString::new(path).ok()?;
+        // SAFETY: mapping 8 bytes of a file this check created; the mapping lives as long as
+        // the process and is only accessed through an atomic.
+        unsafe {
+            let fd = libc::open(c.as_ptr(), libc::O_RDWR);
+            if fd < 0 {
+                return None;
+            }
+            let p = libc::mmap(std::ptr::null_mut(), 8, libc::PROT_READ | libc::PROT_WRITE, libc::MAP_SHARED, fd, 0);
+            libc::close(fd);
+            if p == libc::MAP_FAILED {
+                return None;
+            }
+            Some(SharedCounter(p as *const std::sync::atomic::AtomicU64))
         }
-        Some("smoke") => {
-            let mut sc = Scenario::default();
-            sc.argv = vec!["simfs:/a.pas".into(), "simfs:/b.pas".into(), "simfs:/c.pas".into()];
-            sc.files = vec![
-                SimFile::new("simfs:/a.pas", b"begin a:=1;end.".to_vec()),
-                SimFile::new("simfs:/b.pas", b"\xEF\xBB\xBFprocedure  Foo ;begin end;".to_vec()),
-            ];
-            sc.workers = 2;
-            sc.chunks = vec![1, 1, 1];
-            sc.policy = Policy { kind: PolicyKind::Random, seed: 7, depth: 0 };
-            sc.want_history = true;
-            sc.step_budget = 10000;
-            let t = std::time::Instant::now();
-            let res = child::run_scenario(&sc);
-            eprintln!("{:?}", t.elapsed());
-            println!("{}", serde_json::to_string_pretty(&res).unwrap());
-            for f in &res.files {
-                if let Some(b) = &f.bytes { println!("{} => {:?}", f.path, String::from_utf8_lossy(b)); }
+    }
+    fn next(&self) -> u64 {
+        // SAFETY: see open.
+        unsafe { (*self.0).fetch_add(1, std::sync::atomic::Ordering::SeqCst) }
+    }
+}
+
+fn worker(prop: &str, tier: Tier, seed: u64, index: u64, of: u64) {
+    let counter = std::env::var("VERIF_COUNTER_FILE").ok().and_then(|p| SharedCounter::open(&p));
+    let corpus = gen::Corpus::load(&repo_dir());
+    let p = params(prop, tier);
+    let cap_s: u64 = std::env::var("VERIF_TIME_CAP_S")
+        .ok()
+        .and_then(|s| s.parse().ok())
+        .unwrap_or(if tier == Tier::Quick { 600 } else { 6 * 3600 });
+    let start = Instant::now();
+    let mut stats = Stats::default();
+    let mut case_hashes = std::collections::BTreeSet::new();
+    let mut nontrivial = std::collections::BTreeSet::new();
+    let mut samples = vec![];
+    let mut sample_cases = vec![];
+    let mut violations = 0;
+    let mut runs_done = 0;
+    let mut truncated = false;
+    let mut run = match &counter {
+        Some(c) => c.next(),
+        None => index,
+    };
+    while run < p.runs {
+        if start.elapsed().as_secs() > cap_s {
+            truncated = true;
+            break;
+        }
+        let t_run = Instant::now();
+        let g = generate(prop, tier, seed, run, &corpus, &mut stats);
+        let t_gen = t_run.elapsed();
+        if samples.len() < 2 {
+            samples.push(g.describe.clone());
+            if let Some(c) = g.cases.iter().find(|c| !c.faults.is_empty()).or(g.cases.first()) {
+                if case_size(c).0 < 2048 && sample_cases.len() < 1 {
+                    sample_cases.push(c.clone());
+                }
             }
         }
-        _ => eprintln!("usage"),
+        for (ci, c) in g.cases.iter().enumerate() {
+            stats.cases += 1;
+            if c.faults.is_empty() && c.chunking.is_empty() {
+                stats.cases_fault_free += 1;
+            } else {
+                stats.cases_with_faults += 1;
+            }
+            *stats.by_mode.entry(format!("case:{}", c.mode.name())).or_insert(0) += 1;
+            let h = rng::hash_bytes(serde_json::to_string(c).unwrap().as_bytes());
+            match c.evaluate(&mut stats) {
+                Verdict::Judged(findings) => {
+                    case_hashes.insert(h);
+                    if is_nontrivial(c) {
+                        nontrivial.insert(h);
+                    }
+                    // determinism spot check: same case, same verdict, same observables
+                    if (run + ci as u64) % 37 == 0 {
+                        let a = child::run_scenario(&c.to_scenario());
+                        let b = child::run_scenario(&c.to_scenario());
+                        stats.determinism_pairs += 1;
+                        if result_digest(&a) != result_digest(&b) {
+                            emit(&WorkerMsg::HarnessError {
+                                message: format!("nondeterministic replay of run {run} case {ci}"),
+                            });
+                        }
+                    }
+                    if let Some(f) = findings.first() {
+                        violations += 1;
+                        let (min, fin) = minimize::minimize(c, f, 600);
+                        emit(&WorkerMsg::Violation {
+                            replay: ReplayFile {
+                                property: prop.to_string(),
+                                oracle: fin.oracle.clone(),
+                                detail: fin.detail.clone(),
+                                seed,
+                                run,
+                                original_size: case_size(c),
+                                case: min,
+                            },
+                        });
+                    }
+                }
+                Verdict::Discarded(why) => {
+                    if std::env::var("VERIF_DEBUG").is_ok() {
+                        eprintln!("discard run {run} case {ci}: {why} [{}]", g.describe);
+                    }
+                    stats.cases_discarded += 1;
+                }
+                Verdict::HarnessError(m) => {
+                    emit(&WorkerMsg::HarnessError {
+                        message: format!("run {run} case {ci}: {m}"),
+                    });
+                }
+            }
+            if violations >= 3 {
+                break;
+            }
+        }
+        runs_done += 1;
+        if std::env::var("VERIF_DEBUG").is_ok() && t_run.elapsed().as_millis() > 1500 {
+            eprintln!("slow run {run}: gen {:?} total {:?} [{}]", t_gen, t_run.elapsed(), g.describe);
+        }
+        if violations >= 3 {
+            truncated = true;
+            break;
+        }
+        run = match &counter {
+            Some(c) => c.next(),
+            None => run + of,
+        };
     }
+    emit(&WorkerMsg::Done {
+        stats,
+        case_hashes: case_hashes.into_iter().collect(),
+        nontrivial_hashes: nontrivial.into_iter().collect(),
+        samples,
+        sample_cases,
+        runs_done,
+        truncated,
+    });
+}
+
+/// Prints one digest line per run (all observables of all invocations of its cases).
+fn digest(prop: &str, tier: Tier, seed: u64, runs: u64, index: u64, of: u64) {
+    let corpus = gen::Corpus::load(&repo_dir());
+    let mut run = index;
+    while run < runs {
+        let mut stats = Stats::default();
+        let g = generate(prop, tier, seed, run, &corpus, &mut stats);
+        let mut parts = vec![];
+        let mut discarded = g.cases.is_empty() || g.timing_sensitive;
+        for c in &g.cases {
+            parts.push(rng::hash_bytes(serde_json::to_string(c).unwrap().as_bytes()));
+            let r = child::run_scenario(&c.to_scenario());
+            parts.push(result_digest(&r));
+            let v = c.evaluate(&mut stats);
+            discarded |= matches!(v, Verdict::Discarded(_));
+            parts.push(rng::hash_bytes(format!("{v:?}").as_bytes()));
+        }
+        // a content dropped by the wall-clock pre-screen is the one place where real time can
+        // influence a run; such runs carry no verdict and are left out of the comparison
+        if discarded {
+            println!("{run} discarded");
+        } else {
+            println!("{run} {:016x}", rng::mix(&parts));
+        }
+        run += of;
+    }
+}
+
+fn spawn_self(args: &[String]) -> std::process::Child {
+    std::process::Command::new(std::env::current_exe().expect("current exe"))
+        .args(args)
+        .stdin(std::process::Stdio::null())
+        .stdout(std::process::Stdio::piped())
+        .stderr(std::process::Stdio::inherit())
+        .spawn()
+        .expect("spawn worker process")
+}
+
+fn tier_name(t: Tier) -> &'static str {
+    match t {
+        Tier::Quick => "quick",
+        Tier::Thorough => "thorough",
+    }
+}
+
+/// N runs, digested at two different worker-process counts: the logs must be identical.
+fn determinism_selftest(prop: &str, tier: Tier, seed: u64, runs: u64, procs: u64) -> Result<u64, String> {
+    let collect = |of: u64| -> Result<std::collections::BTreeMap<u64, String>, String> {
+        let children: Vec<_> = (0..of)
+            .map(|i| {
+                spawn_self(&[
+                    "digest".into(),
+                    prop.into(),
+                    tier_name(tier).into(),
+                    seed.to_string(),
+                    runs.to_string(),
+                    i.to_string(),
+                    of.to_string(),
+                ])
+            })
+            .collect();
+        let mut map = std::collections::BTreeMap::new();
+        for mut ch in children {
+            let out = ch.stdout.take().unwrap();
+            for line in std::io::BufReader::new(out).lines() {
+                let line = line.map_err(|e| e.to_string())?;
+                let mut it = line.split_whitespace();
+                if let (Some(a), Some(b)) = (it.next(), it.next()) {
+                    map.insert(a.parse::<u64>().map_err(|e| e.to_string())?, b.to_string());
+                }
+            }
+            let st = ch.wait().map_err(|e| e.to_string())?;
+            if !st.success() {
+                return Err(format!("digest worker exited with {st}"));
+            }
+        }
+        Ok(map)
+    };
+    let a = collect(procs)?;
+    let b = collect(if procs > 3 { 3 } else { 1 })?;
+    if a.len() as u64 != runs || b.len() as u64 != runs {
+        return Err(format!("digest count mismatch: {} / {} / {runs}", a.len(), b.len()));
+    }
+    for (k, v) in &a {
+        if v == "discarded" || b.get(k).map(|x| x == "discarded").unwrap_or(false) {
+            continue;
+        }
+        if b.get(k) != Some(v) {
+            return Err(format!(
+                "run {k} of {prop} is not deterministic across processes: {v} vs {:?}",
+                b.get(k)
+            ));
+        }
+    }
+    Ok(runs)
+}
+
+#[derive(Deserialize, Debug, Clone)]
+struct KnownFinding {
+    status: String,
+    property: String,
+    oracle: String,
+    #[serde(default)]
+    mode: Option<String>,
+    /// "<op>:<kind>" that must be among the minimised case's faults
+    #[serde(default)]
+    fault: Option<String>,
+    #[serde(default)]
+    encoding: Option<String>,
+    #[serde(default)]
+    detail_contains: Option<String>,
+    #[serde(default)]
+    what: String,
+}
+
+#[derive(Deserialize, Debug, Default)]
+struct KnownFindings {
+    #[serde(default)]
+    findings: Vec<KnownFinding>,
+}
+
+fn load_known() -> KnownFindings {
+    let path = format!("{}/known_findings.json", verif_dir());
+    match std::fs::read_to_string(&path) {
+        Ok(s) => serde_json::from_str(&s).unwrap_or_else(|e| {
+            eprintln!("HARNESS-ERROR: {path} does not parse: {e}");
+            std::process::exit(2);
+        }),
+        Err(_) => KnownFindings::default(),
+    }
+}
+
+fn known_matches(k: &KnownFinding, r: &ReplayFile) -> bool {
+    if k.status != "known" || k.property != r.property || k.oracle != r.oracle {
+        return false;
+    }
+    if let Some(m) = &k.mode {
+        if m != r.case.mode.name() {
+            return false;
+        }
+    }
+    if let Some(f) = &k.fault {
+        let has = r.case.faults.iter().any(|x| {
+            format!("{:?}:{}", x.op, x.kind.name()).to_lowercase() == f.to_lowercase()
+        });
+        if !has {
+            return false;
+        }
+    }
+    if let Some(e) = &k.encoding {
+        let cfg = r.case.configured_encoding().name().to_lowercase();
+        if cfg != e.to_lowercase() {
+            return false;
+        }
+    }
+    if let Some(d) = &k.detail_contains {
+        if !r.detail.contains(d.as_str()) {
+            return false;
+        }
+    }
+    true
+}
+
+fn required_probes(prop: &str) -> &'static [&'static str] {
+    match prop {
+        "C16" => &[
+            "c16_result_shorter_than_original",
+            "c16_result_longer_than_original",
+            "c16_write_skipped_already_formatted",
+            "c16_read_side_failure_judged",
+            "c16_undecodable_content_judged",
+            "c16_check_on_formatted_content",
+            "c16_check_on_unformatted_content",
+            "set_len_shrank_file",
+            "bom_split_across_reads",
+        ],
+        "C17" => &[
+            "c17_malformed_input_judged",
+            "c17_bom_overrides_configured_encoding",
+            "c17_text_changed_and_written",
+            "c17_text_unchanged",
+            "bom_split_across_reads",
+        ],
+        "C18" => &[
+            "c18_file_with_injected_read_failure",
+            "c18_file_with_injected_write_failure",
+            "c18_file_failing_on_its_own",
+            "open_after_failed_item_in_same_group",
+            "dispatch_raced_by_2plus_workers",
+            "lexer_dispatch_before_store",
+        ],
+        _ => &[],
+    }
+}
+
+fn check(prop: &str, tier: Tier, procs: u64) -> i32 {
+    let seed: u64 = std::env::var("VERIF_SEED")
+        .ok()
+        .and_then(|s| s.parse().ok())
+        .unwrap_or(DEFAULT_SEED);
+    println!("pasfmt-sim check property={prop} tier={} VERIF_SEED={seed} procs={procs}", tier_name(tier));
+    let start = Instant::now();
+    let mut harness_errors: Vec<String> = vec![];
+
+    // determinism first
+    let det_runs = if tier == Tier::Quick { 32 } else { 512 };
+    let det = match determinism_selftest(prop, tier, seed ^ 0x5EED, det_runs, procs) {
+        Ok(n) => n,
+        Err(e) => {
+            harness_errors.push(format!("determinism self-test: {e}"));
+            0
+        }
+    };
+    println!("determinism self-test: {det} runs digested identically at {procs} and {} worker processes", if procs > 3 { 3 } else { 1 });
+
+    let counter_path = format!("{}/target/.run-counter-{}", verif_dir(), std::process::id());
+    let _ = std::fs::create_dir_all(format!("{}/target", verif_dir()));
+    if std::fs::write(&counter_path, [0u8; 8]).is_ok() {
+        std::env::set_var("VERIF_COUNTER_FILE", &counter_path);
+    }
+    if std::env::var("VERIF_PRESCREEN_MS").is_err() {
+        std::env::set_var("VERIF_PRESCREEN_MS", if tier == Tier::Quick { "2500" } else { "10000" });
+    }
+    if std::env::var("VERIF_PRESCREEN_SLOW_MS").is_err() {
+        std::env::set_var("VERIF_PRESCREEN_SLOW_MS", if tier == Tier::Quick { "400" } else { "3000" });
+    }
+    let children: Vec<_> = (0..procs)
+        .map(|i| {
+            spawn_self(&[
+                "worker".into(),
+                prop.into(),
+                tier_name(tier).into(),
+                seed.to_string(),
+                i.to_string(),
+                procs.to_string(),
+            ])
+        })
+        .collect();
+    let mut stats = Stats::default();
+    let mut case_hashes = std::collections::BTreeSet::new();
+    let mut nontrivial = std::collections::BTreeSet::new();
+    let mut samples: Vec<String> = vec![];
+    let mut sample_cases: Vec<Case> = vec![];
+    let mut replays: Vec<ReplayFile> = vec![];
+    let mut runs_done = 0;
+    let mut truncated = false;
+    for mut ch in children {
+        let out = ch.stdout.take().unwrap();
+        let mut done = false;
+        for line in std::io::BufReader::new(out).lines() {
+            let Ok(line) = line else { break };
+            match serde_json::from_str::<WorkerMsg>(&line) {
+                Ok(WorkerMsg::Violation { replay }) => replays.push(replay),
+                Ok(WorkerMsg::HarnessError { message }) => harness_errors.push(message),
+                Ok(WorkerMsg::Done {
+                    stats: s,
+                    case_hashes: ch_,
+                    nontrivial_hashes,
+                    samples: sm,
+                    sample_cases: sc,
+                    runs_done: rd,
+                    truncated: t,
+                }) => {
+                    stats.merge(&s);
+                    case_hashes.extend(ch_);
+                    nontrivial.extend(nontrivial_hashes);
+                    if samples.len() < 6 {
+                        samples.extend(sm);
+                    }
+                    if sample_cases.len() < 2 {
+                        sample_cases.extend(sc);
+                    }
+                    runs_done += rd;
+                    truncated |= t;
+                    done = true;
+                }
+                Err(e) => harness_errors.push(format!("unparseable worker line: {e}")),
+            }
+        }
+        let st = ch.wait();
+        if !done {
+            harness_errors.push(format!("a worker process ended without its summary ({st:?})"));
+        }
+    }
+
+    let _ = std::fs::remove_file(&counter_path);
+    std::env::remove_var("VERIF_COUNTER_FILE");
+
+    // violations: known findings, replay files, replay verification
+    let known = load_known();
+    let mut violation_lines = vec![];
+    let mut known_lines = vec![];
+    let replay_dir = format!("{}/replays", verif_dir());
+    let _ = std::fs::create_dir_all(&replay_dir);
+    replays.sort_by_key(|r| (r.oracle.clone(), case_size(&r.case)));
+    let mut seen_oracles = std::collections::BTreeSet::new();
+    for r in &replays {
+        if let Some(k) = known.findings.iter().find(|k| known_matches(k, r)) {
+            let line = format!("KNOWN-FINDING: property={} {} [{}]", r.property, k.what, r.oracle);
+            if !known_lines.contains(&line) {
+                known_lines.push(line);
+            }
+            continue;
+        }
+        if !seen_oracles.insert(r.oracle.clone()) {
+            continue;
+        }
+        let path = format!("{replay_dir}/{}-{}-seed{}-run{}.json", r.property, r.oracle.replace('.', "_"), r.seed, r.run);
+        if let Err(e) = std::fs::write(&path, serde_json::to_string_pretty(r).unwrap()) {
+            harness_errors.push(format!("cannot write {path}: {e}"));
+            continue;
+        }
+        // the replay file must reproduce the violation exactly, in a fresh process
+        let out = std::process::Command::new(std::env::current_exe().unwrap())
+            .args(["replay", &path])
+            .output();
+        let reproduced = match &out {
+            Ok(o) => o.status.code() == Some(1)
+                && String::from_utf8_lossy(&o.stdout).contains(&format!("VIOLATION property={} ", r.property)),
+            Err(_) => false,
+        };
+        if reproduced {
+            violation_lines.push((
+                format!("VIOLATION property={} replay={}", r.property, path),
+                format!("  oracle={} detail={} (minimised from {:?} to {:?}; seed {} run {})", r.oracle, r.detail, r.original_size, case_size(&r.case), r.seed, r.run),
+            ));
+        } else {
+            harness_errors.push(format!("violation {} (run {}) did not reproduce from its replay file {path}", r.oracle, r.run));
+        }
+    }
+
+    // reach: probes that must not be stuck at zero
+    let mut missing_probes = vec![];
+    for p in required_probes(prop) {
+        if stats.probes.get(*p).copied().unwrap_or(0) == 0 {
+            missing_probes.push(p.to_string());
+        }
+    }
+    if !missing_probes.is_empty() && violation_lines.is_empty() && !truncated {
+        harness_errors.push(format!("probes stuck at zero: {missing_probes:?}"));
+    }
+
+    let wall = start.elapsed().as_secs_f64();
+    write_evidence(
+        prop,
+        tier,
+        seed,
+        &stats,
+        case_hashes.len() as u64,
+        nontrivial.len() as u64,
+        &samples,
+        &sample_cases,
+        runs_done,
+        truncated,
+        det,
+        wall,
+        violation_lines.len() as i64,
+        &known_lines,
+        &harness_errors,
+        procs,
+    );
+
+    println!(
+        "runs={} cases={} (fault-free {}, with faults {}, discarded {}) invocations={} steps={} switches={} distinct_cases={} interleavings={} shapes={} wall={:.1}s",
+        runs_done, stats.cases, stats.cases_fault_free, stats.cases_with_faults, stats.cases_discarded, stats.invocations, stats.steps, stats.switches, case_hashes.len(), stats.interleavings.len(), stats.shapes.len(), wall
+    );
+    println!("faults fired: {:?}", stats.fired);
+    println!("probes: {:?}", stats.probes);
+    for l in &known_lines {
+        println!("{l}");
+    }
+    for (a, b) in &violation_lines {
+        println!("{a}");
+        println!("{b}");
+    }
+    if !violation_lines.is_empty() {
+        return 1;
+    }
+    if !harness_errors.is_empty() {
+        for e in &harness_errors {
+            eprintln!("HARNESS-ERROR: {e}");
+        }
+        return 2;
+    }
+    println!("OK property={prop} held on everything explored");
+    0
+}
+
+#[allow(clippy::too_many_arguments)]
+fn write_evidence(
+    prop: &str,
+    tier: Tier,
+    seed: u64,
+    stats: &Stats,
+    distinct_cases: u64,
+    distinct_nontrivial: u64,
+    samples: &[String],
+    sample_cases: &[Case],
+    runs_done: u64,
+    truncated: bool,
+    det_runs: u64,
+    wall: f64,
+    violations: i64,
+    known_lines: &[String],
+    harness_errors: &[String],
+    procs: u64,
+) {
+    let level = if prop == "C16" { "fault_enumeration" } else { "exploration" };
+    let per_hour = |n: u64| -> u64 { if wall > 0.0 { (n as f64 * 3600.0 / wall) as u64 } else { 0 } };
+    let rule = match prop {
+        "C16" => "run i derives a PRNG stream from (VERIF_SEED, C16, i) and generates one content (corpus snippets, re-spaced, decorated, encoded, optionally malformed/missing/unreadable/read-only) plus options; cases = every mode fault-free against the stdin reference, the same on the already-formatted result, 3 seeded fault plans, and for one content in `sweep_one_in` the exhaustive single-fault sweep (every operation of the fault-free files-mode and stdin-mode histories x every applicable fault kind). A case is distinct by the hash of its full description and non-trivial when its content is non-empty.",
+        "C17" => "run i derives a PRNG stream from (VERIF_SEED, C17, i) and generates one text decorated with characters specific to a drawn encoding (all labels of the encoding option), with/without BOM (possibly disagreeing with the configured encoding), optionally corrupted; cases = files mode and stdin->stdout, fault-free and under decoder/encoder-aimed chunk policies and EINTR; the reference bytes come from the pure public API and an independent codec. Distinct by hash of the full case, non-trivial when the content is non-empty.",
+        _ => "run i derives a PRNG stream from (VERIF_SEED, C18, i) and generates one batch: n files of mixed size/encoding/BOM with near-collisions, a failing subset (missing, unreadable, read-only, malformed, injected read/open/write-side faults), benign faults on half of the rest, K workers, a partition into contiguous groups, a scheduling policy and its seed, CPU-feature knob; the reference is each file in its own pristine invocation. Distinct by hash of the full case (which includes the schedule seed), non-trivial when some file is non-empty; distinct interleavings are counted separately by the hash of the (worker, operation, file) sequence.",
+    };
+    let mut coverage = serde_json::json!({
+        "evaluations": stats.cases,
+        "distinct_nontrivial": distinct_nontrivial,
+        "rule": rule,
+        "samples": samples,
+        "sample_case_files": sample_cases,
+        "exhaustive": false,
+        "runs": runs_done,
+        "runs_per_hour": per_hour(runs_done),
+        "seeds_per_hour": per_hour(runs_done),
+        "seed_note": "one VERIF_SEED; every run index derives its own independent PRNG stream from it, so runs = seeds",
+        "cases_judged_distinct": distinct_cases,
+        "cases_fault_free": stats.cases_fault_free,
+        "cases_with_faults_or_chunking": stats.cases_with_faults,
+        "cases_discarded_by_prescreen": stats.cases_discarded,
+        "simulated_invocations": stats.invocations,
+        "invocations_per_hour": per_hour(stats.invocations),
+        "simulated_time": "logical only: pasfmt has no timers or deadlines, so simulated time is the global operation sequence number",
+        "simulated_steps_total": stats.steps,
+        "simulated_steps_per_invocation": if stats.invocations > 0 { stats.steps / stats.invocations } else { 0 },
+        "context_switches": stats.switches,
+        "faults_fired_by_kind_at_op": stats.fired,
+        "faults_planned_but_not_fired": stats.planned_not_fired,
+        "single_fault_sweep_cases": stats.sweep_runs,
+        "distinct_interleavings": stats.interleavings.len(),
+        "distinct_interleavings_measure": "hash of the (worker, operation, target file) sequence of multi-worker, multi-file runs",
+        "distinct_scenario_shapes": stats.shapes.len(),
+        "probes": stats.probes,
+        "by_mode": stats.by_mode,
+        "by_governing_encoding": stats.by_encoding,
+        "by_policy": stats.by_policy,
+        "by_workers": stats.by_workers,
+        "max_content_bytes": stats.max_bytes,
+        "determinism_selftest_runs": det_runs,
+        "determinism_spot_pairs": stats.determinism_pairs,
+        "reference_results_reused_from_memo": stats.reference_memo_hits,
+        "truncated_by_time_cap_or_violations": truncated,
+        "worker_processes": procs,
+        "known_findings_reported": known_lines,
+        "harness_errors": harness_errors,
+        "components": {
+            "real": ["front-end/src/main.rs main() (included verbatim)", "clap parsing and validation (orchestrator/src/command_line.rs)", "configuration layering through the config crate (-C overrides)", "pasfmt::format / make_formatter", "FormattingOrchestrator::run", "orchestrator/src/file_formatter.rs (byte-identical, compiled against the seam)", "pasfmt-core (lexer incl. run-time dispatch static, parser, rules, optimising line formatter, reconstructor)", "encoding_rs", "std::io::Read::read_to_end / Write::write_all default implementations"],
+            "simulated": ["std::fs::File/OpenOptions (in-memory POSIX-subset file system)", "stdin/stdout/stderr streams", "rayon parallel iterator (executor modelling rayon's documented contract, driven by the seeded baton scheduler)", "stderrlog (recording logger, level pinned at WARN)", "is_x86_feature_detected (real detection AND a per-run knob)", "argv"],
+            "not_simulated": ["walkdir / glob / --files-from / pasfmt.toml discovery (real file system; cases pass explicit file paths and -C options only)"]
+        }
+    });
+    if prop != "C18" {
+        coverage.as_object_mut().unwrap().remove("distinct_interleavings");
+        coverage.as_object_mut().unwrap().remove("distinct_interleavings_measure");
+        coverage.as_object_mut().unwrap().remove("by_policy");
+        coverage.as_object_mut().unwrap().remove("by_workers");
+    }
+    let ev = serde_json::json!({
+        "property_id": prop,
+        "tier": tier_name(tier),
+        "seed": seed,
+        "level": level,
+        "coverage": coverage,
+        "assumptions": [
+            "the simulated file system, streams and pool executor are models (POSIX subset; rayon's documented contract, a superset of its real schedules)",
+            "encoding_rs conversion tables are trusted (the reference codec uses its streaming API, the product its one-shot API)",
+            "the formatter as a pure function is taken, not judged (contents on which it aborts alone are discarded and counted)",
+            "a clean batch is evidence over the sampled schedules, faults and contents, not a proof over all"
+        ],
+        "wall_s": wall,
+        "violations": violations
+    });
+    let dir = format!("{}/evidence", verif_dir());
+    let _ = std::fs::create_dir_all(&dir);
+    let path = format!("{dir}/{prop}.json");
+    if let Err(e) = std::fs::write(&path, serde_json::to_string_pretty(&ev).unwrap()) {
+        eprintln!("HARNESS-ERROR: cannot write {path}: {e}");
+    }
+}
+
+fn replay(path: &str) -> i32 {
+    let text = match std::fs::read_to_string(path) {
+        Ok(t) => t,
+        Err(e) => {
+            eprintln!("HARNESS-ERROR: cannot read {path}: {e}");
+            return 2;
+        }
+    };
+    let rf: ReplayFile = match serde_json::from_str(&text) {
+        Ok(r) => r,
+        Err(e) => {
+            eprintln!("HARNESS-ERROR: {path} is not a replay file: {e}");
+            return 2;
+        }
+    };
+    let mut stats = Stats::default();
+    match rf.case.evaluate(&mut stats) {
+        Verdict::Judged(findings) => {
+            for f in &findings {
+                println!("finding oracle={} detail={}", f.oracle, f.detail);
+            }
+            if let Some(f) = findings.iter().find(|f| f.oracle == rf.oracle) {
+                println!("VIOLATION property={} replay={}", rf.property, path);
+                println!("  oracle={} detail={}", f.oracle, f.detail);
+                if f.detail != rf.detail {
+                    println!("  note: detail differs from the recorded one: {}", rf.detail);
+                }
+                1
+            } else {
+                println!("NOT-REPRODUCED property={} oracle={} (the case now passes this oracle)", rf.property, rf.oracle);
+                0
+            }
+        }
+        Verdict::Discarded(m) => {
+            println!("NOT-REPRODUCED: case discarded: {m}");
+            0
+        }
+        Verdict::HarnessError(m) => {
+            eprintln!("HARNESS-ERROR: {m}");
+            2
+        }
+    }
+}
+
+fn parse_tier(s: &str) -> Tier {
+    match s {
+        "thorough" => Tier::Thorough,
+        _ => Tier::Quick,
+    }
+}
+
+fn main() {
+    // A real invocation's environment is not part of any scenario: backtrace capture (slow and
+    // address-dependent) is switched off before anything can cache the setting.
+    std::env::remove_var("RUST_BACKTRACE");
+    std::env::remove_var("RUST_LIB_BACKTRACE");
+    let args: Vec<String> = std::env::args().collect();
+    let code = match args.get(1).map(|s| s.as_str()) {
+        Some("check") => {
+            let prop = args.get(2).cloned().unwrap_or_default();
+            let mut tier = std::env::var("VERIF_TIER").map(|t| parse_tier(&t)).unwrap_or(Tier::Quick);
+            let mut procs = std::thread::available_parallelism().map(|n| n.get() as u64).unwrap_or(4).min(16);
+            let mut i = 3;
+            while i < args.len() {
+                match args[i].as_str() {
+                    "--tier" => {
+                        tier = parse_tier(&args[i + 1]);
+                        i += 1;
+                    }
+                    "--procs" => {
+                        procs = args[i + 1].parse().unwrap_or(procs);
+                        i += 1;
+                    }
+                    _ => {}
+                }
+                i += 1;
+            }
+            if !["C16", "C17", "C18"].contains(&prop.as_str()) {
+                eprintln!("HARNESS-ERROR: unknown property {prop}");
+                2
+            } else {
+                check(&prop, tier, procs.max(1))
+            }
+        }
+        Some("worker") => {
+            worker(
+                &args[2],
+                parse_tier(&args[3]),
+                args[4].parse().unwrap(),
+                args[5].parse().unwrap(),
+                args[6].parse().unwrap(),
+            );
+            0
+        }
+        Some("digest") => {
+            digest(
+                &args[2],
+                parse_tier(&args[3]),
+                args[4].parse().unwrap(),
+                args[5].parse().unwrap(),
+                args[6].parse().unwrap(),
+                args[7].parse().unwrap(),
+            );
+            0
+        }
+        Some("replay") => replay(&args[2]),
+        Some("gen") => {
+            // pasfmt-sim gen <prop> <tier> <seed> <run>: dump the cases of one run
+            let corpus = gen::Corpus::load(&repo_dir());
+            let mut stats = Stats::default();
+            let g = generate(&args[2], parse_tier(&args[3]), args[4].parse().unwrap(), args[5].parse().unwrap(), &corpus, &mut stats);
+            eprintln!("{}", g.describe);
+            println!("{}", serde_json::to_string(&g.cases).unwrap());
+            0
+        }
+        Some("run-scenario") => {
+            let text = std::fs::read_to_string(&args[2]).expect("read scenario");
+            let sc: scenario::Scenario = serde_json::from_str(&text).expect("parse scenario");
+            let res = child::run_scenario(&sc);
+            println!("{}", serde_json::to_string_pretty(&res).unwrap());
+            0
+        }
+        _ => {
+            eprintln!("usage: pasfmt-sim check <C16|C17|C18> [--tier quick|thorough] [--procs N] | replay <file>");
+            2
+        }
+    };
+    std::process::exit(code);
 }
